@@ -16,7 +16,7 @@ def run_version(pid, tier, replay=None):
     exe = vlib.cc_build(sc.path("ver_h"), [os.path.join(vlib.HARNESS, "ver_h.c")] + vlib.repo_src("version.c", "a.c"), sc)
     r = vlib.run_harness([exe, sc.path("ver.out"), sc.path("ver.ndjson")], timeout=600)
     if r.returncode != 0:
-        if r.returncode in (97, 98, 99, -6, -11) or "Sanitizer" in (r.stderr or ""):
+        if r.returncode in (96, 97, 98, 99, -6, -11) or "Sanitizer" in (r.stderr or ""):
             ck.violation("crash:version", {"what": "sanitizer abort in the version routines", "stderr": (r.stderr or "")[-1500:]})
             return ck.finish()
         raise Broken("version harness failed: %s" % (r.stderr or "")[-800:])
@@ -41,7 +41,7 @@ def run_regress(pid, tier, replay=None):
     exe = vlib.cc_build(sc.path("reg_h"), [os.path.join(vlib.HARNESS, "reg_h.c")] + vlib.repo_src("regress_simple.c", "regress_linear.c", "regress.c", "math.c", "a.c"), sc)
     r = vlib.run_harness([exe, sc.path("reg.out"), sc.path("reg.ndjson")], timeout=600)
     if r.returncode != 0:
-        if r.returncode in (97, 98, 99, -6, -11) or "Sanitizer" in (r.stderr or ""):
+        if r.returncode in (96, 97, 98, 99, -6, -11) or "Sanitizer" in (r.stderr or ""):
             ck.violation("crash:regress", {"what": "sanitizer abort in the regression routines", "stderr": (r.stderr or "")[-1500:]})
             return ck.finish()
         raise Broken("regress harness failed: %s" % (r.stderr or "")[-800:])
@@ -69,7 +69,7 @@ def run_polyfit(pid, tier, replay=None):
         o = sc.path("pf%d.ndjson" % real)
         r = vlib.run_harness([exe, sc.path("pf.out"), o], timeout=600)
         if r.returncode != 0:
-            if r.returncode in (97, 98, 99, -6, -11) or "Sanitizer" in (r.stderr or ""):
+            if r.returncode in (96, 97, 98, 99, -6, -11) or "Sanitizer" in (r.stderr or ""):
                 ck.violation("crash:polyfit", {"what": "sanitizer abort in a_poly_xTx / a_poly_xTy (real width %d)" % real, "stderr": (r.stderr or "")[-1500:]})
                 continue
             raise Broken("polyfit harness failed: %s" % (r.stderr or "")[-800:])
